@@ -43,6 +43,41 @@ let op_session args = match args with
     String.concat " " (go s0 steps [])
   | _ -> "bad-args"
 
+(* refenc <initiator> <channel> <source> <share> <stream> <descr hex> <session> <target> <grant> <control> <fp sec> <fp long 0|1> <letter>
+   -> the frame RefSession.enc_smsg (the Coq reference encoder of the C12 alphabet) produces, in hex.
+   letter = DA:<sid>:<type>.<body hex>,... | SYNC | COOP | GRANTED | CTRL:<action> | FONTMAP | SEI:<code> |
+            UNK:<type2>:<body hex> | DEACT | FPBMP:<l.t.r.b.w.h.bpp.flags.scan.usize.data hex>/... | FPOTHER:<code>:<body hex> *)
+let ni s = n_of_int (int_of_string s)
+let parse_letter (s : Stdlib.String.t) : smsg =
+  match String.split_on_char ':' s with
+  | ["DA"; sid; caps] ->
+    let cs = if caps = "-" then [] else
+      List.map (fun c -> match String.split_on_char '.' c with
+        | [t; b] -> (ni t, unhex b) | _ -> failwith "bad capset") (String.split_on_char ',' caps) in
+    DemandActive (ni sid, cs)
+  | ["SYNC"] -> Synchronize | ["COOP"] -> ControlCooperate | ["GRANTED"] -> ControlGranted
+  | ["CTRL"; a] -> ControlOther (ni a) | ["FONTMAP"] -> FontMap | ["SEI"; c] -> SetErrorInfo (ni c)
+  | ["UNK"; t; b] -> UnknownData (ni t, unhex b) | ["DEACT"] -> DeactivateAll
+  | ["FPBMP"; rs] ->
+    let rl = if rs = "-" then [] else
+      List.map (fun r -> match String.split_on_char '.' r with
+        | [l; t; rr; b; w; h; bpp; fl; sc; us; d] ->
+          { rc_left = ni l; rc_top = ni t; rc_right = ni rr; rc_bottom = ni b; rc_width = ni w; rc_height = ni h;
+            rc_bpp = ni bpp; rc_flags = ni fl; rc_scan = ni sc; rc_usize = ni us; rc_data = unhex d }
+        | _ -> failwith "bad rect") (String.split_on_char '/' rs) in
+    FpBitmap rl
+  | ["FPOTHER"; c; b] -> FpOther (ni c, unhex b)
+  | _ -> failwith "bad letter"
+
+let op_refenc args = match args with
+  | [ini; chan; src; share; stream; descr; sess; target; grant; control; sec; long; letter] ->
+    let i = { sv_initiator = ni ini; sv_channel = ni chan; sv_source = ni src; sv_share = ni share; sv_stream = ni stream; sv_descr = unhex descr;
+              sv_session = ni sess; sv_target = ni target; sv_grant = ni grant; sv_control = ni control;
+              sv_fp_sec = ni sec; sv_fp_long = (long = "1") } in
+    hex (enc_smsg i (parse_letter letter))
+  | _ -> "bad-args"
+
 let () = main_loop (fun op args -> match op with
   | "session" -> op_session args
+  | "refenc" -> op_refenc args
   | _ -> "unknown-op:" ^ op)
